@@ -17,7 +17,11 @@ import translate as T
 
 GRID = "mesa/discrete_space/grid.py"
 CELL = "mesa/discrete_space/cell.py"
-HEADER = ""
+HEADER = """(* itertools.combinations(t, 2) of a triple *)
+Definition comb2 (t : Z * Z * Z) : list (Z * Z) := let '(a, b, c) := t in [(a, b); (a, c); (b, c)].
+"""
+VOR = "mesa/discrete_space/voronoi.py"
+NET = "mesa/discrete_space/network.py"
 
 
 class GTr(pyexpr.Tr):
@@ -348,6 +352,136 @@ def c_nbhd_skeleton():
     return "Definition gen_cell_nbhd_skeleton_ok : bool := true."
 
 
+# ------------------------------------------------------------------ VoronoiGrid: triangles -> connections
+def c_vor_export():
+    fn = T._find_func(_cls(VOR, "Delaunay"), "export_triangles")
+    st = _stmts(fn)
+    if len(st) != 2 or not isinstance(st[0], ast.Assign) or ast.unparse(st[1]) != f"return {ast.unparse(st[0].targets[0])}":
+        raise T.Broken("expected `<name> = [<comprehension>]; return <name>`")
+    lc = st[0].value
+    if not (isinstance(lc, ast.ListComp) and len(lc.generators) == 1):
+        raise T.Broken("not a single list comprehension")
+    g = lc.generators[0]
+    if ast.unparse(g.iter) != "self.triangles" or not (isinstance(g.target, ast.Tuple) and len(g.target.elts) == 3
+                                                       and all(isinstance(x, ast.Name) for x in g.target.elts)):
+        raise T.Broken("comprehension is not `for (a, b, c) in self.triangles`")
+    a, b, c = (x.id for x in g.target.elts)
+    tr = pyexpr.Tr()
+    try:
+        cond = "true"
+        for t in g.ifs:
+            cond = f"({cond} && {tr.bexpr(t)})"
+        if not (isinstance(lc.elt, ast.Tuple) and len(lc.elt.elts) == 3):
+            raise T.Broken("element is not a triple")
+        es = [tr.expr(x) for x in lc.elt.elts]
+    except pyexpr.Unsupported as e:
+        raise T.Broken(f"export_triangles outside the translated subset: {e}") from None
+    if any(k != "Z" for _, k in es):
+        raise T.Broken("triple of non-integers")
+    return ("Definition gen_vor_export (triangles : list (Z * Z * Z)) : list (Z * Z * Z) :=\n"
+            f"  flat_map (fun '({a}, {b}, {c}) => if {cond} then [({es[0][0]}, {es[1][0]}, {es[2][0]})] else []) triangles.")
+
+
+def _vor_body(stmts, tr):
+    """list-valued Gallina term: every `self._cells[X].connect(self._cells[Y], (K1, K2))` emits (X, ((K1, K2), Y))"""
+    if not stmts:
+        return "[]"
+    s, rest = stmts[0], stmts[1:]
+    if isinstance(s, ast.If) and not s.orelse:
+        c = tr.bexpr(s.test)
+        here = f"(if {c} then {_vor_body(list(s.body), tr)} else [])"
+        return here if not rest else f"({here} ++ {_vor_body(rest, tr)})"
+    if isinstance(s, ast.Expr) and isinstance(s.value, ast.Call) and isinstance(s.value.func, ast.Attribute) \
+            and s.value.func.attr == "connect" and len(s.value.args) == 2 and not s.value.keywords:
+        src, (tgt, key) = s.value.func.value, s.value.args
+        for x in (src, tgt):
+            if not (isinstance(x, ast.Subscript) and ast.unparse(x.value) == "self._cells"):
+                raise pyexpr.Unsupported("connect is not between self._cells[...] entries")
+        x, kx = tr.expr(src.slice)
+        y, ky = tr.expr(tgt.slice)
+        k, kk = tr.expr(key)
+        if kx != "Z" or ky != "Z" or kk != "tuple":
+            raise pyexpr.Unsupported("kinds in the connect call")
+        return f"(({x}, ({k}, {y})) :: {_vor_body(rest, tr)})"
+    raise pyexpr.Unsupported(f"statement {type(s).__name__} in the connect loops")
+
+
+def _pair_loop(outer, want_iter):
+    """for T in <want_iter>: for i, j in combinations(T, 2): body   ->  (T name, (i, j), body)"""
+    if not (isinstance(outer, ast.For) and isinstance(outer.target, ast.Name) and ast.unparse(outer.iter) == want_iter
+            and len(outer.body) == 1 and isinstance(outer.body[0], ast.For) and not outer.orelse):
+        raise T.Broken(f"expected `for <t> in {want_iter}: for i, j in combinations(<t>, 2): ...`")
+    inner = outer.body[0]
+    if ast.unparse(inner.iter) != f"combinations({outer.target.id}, 2)" or not (
+            isinstance(inner.target, ast.Tuple) and len(inner.target.elts) == 2
+            and all(isinstance(x, ast.Name) for x in inner.target.elts)) or inner.orelse:
+        raise T.Broken("inner loop is not over combinations(<t>, 2)")
+    return outer.target.id, tuple(x.id for x in inner.target.elts), list(inner.body)
+
+
+def c_vor_connect():
+    fn = T._find_func(_cls(VOR, "VoronoiGrid"), "_connect_cells")
+    st = _stmts(fn)
+    if len(st) != 4 or ast.unparse(st[0]) != "self.triangulation = Delaunay()" \
+            or ast.unparse(st[1]) != "for centroid in self.centroids_coordinates:\n    self.triangulation.add_point(centroid)":
+        raise T.Broken("expected: triangulation = Delaunay(); add every centroid; two connect loops")
+    parts = []
+    try:
+        for loop, it, arg in ((st[2], "self.triangulation.export_triangles()", "exported"),
+                              (st[3], "self.triangulation.triangles", "triangles")):
+            tname, (i, j), body = _pair_loop(loop, it)
+            tr = pyexpr.Tr()
+            parts.append(f"(flat_map (fun {tname} => flat_map (fun '({i}, {j}) => {_vor_body(body, tr)}) (comb2 {tname})) {arg})")
+    except pyexpr.Unsupported as e:
+        raise T.Broken(f"VoronoiGrid._connect_cells outside the translated subset: {e}") from None
+    return ("Definition gen_vor_connect (exported triangles : list (Z * Z * Z)) : list (Z * ((Z * Z) * Z)) :=\n"
+            f"  {parts[0]} ++\n  {parts[1]}.")
+
+
+# ------------------------------------------------------------------ Network
+def c_net_connect():
+    k = _cls(NET, "Network")
+    fn = T._find_func(k, "_connect_single_cell")
+    if _args(fn) != ["self", "cell"]:
+        raise T.Broken("parameters of Network._connect_single_cell")
+    st = _stmts(fn)
+    if len(st) != 1 or not isinstance(st[0], ast.For) or ast.unparse(st[0].iter) != "self.G.neighbors(cell.coordinate)" \
+            or not isinstance(st[0].target, ast.Name):
+        raise T.Broken("expected `for <node> in self.G.neighbors(cell.coordinate): ...`")
+    loop = st[0]
+    var = loop.target.id
+    body = list(loop.body)
+    if len(body) != 1:
+        raise T.Broken("loop body is not a single connect call")
+    c = body[0]
+    if not (isinstance(c, ast.Expr) and isinstance(c.value, ast.Call) and ast.unparse(c.value.func) == "cell.connect"
+            and len(c.value.args) == 2 and not c.value.keywords):
+        raise T.Broken("loop body is not cell.connect(target, key)")
+    tgt, key = c.value.args
+    if not (isinstance(tgt, ast.Subscript) and ast.unparse(tgt.value) == "self._cells"):
+        raise T.Broken("connect target is not self._cells[...]")
+    tr = pyexpr.Tr()
+    try:
+        t, kt = tr.expr(tgt.slice)
+        kk, kkk = tr.expr(key)
+    except pyexpr.Unsupported as e:
+        raise T.Broken(f"Network._connect_single_cell outside the translated subset: {e}") from None
+    if kt != "Z" or kkk != "Z":
+        raise T.Broken("node ids are expected to be integers in the model")
+    init = [ast.unparse(x) for x in _stmts(T._find_func(k, "__init__"))]
+    want = ["super().__init__(capacity=capacity, random=random, cell_klass=cell_klass)", "self.G = G",
+            "for node_id in self.G.nodes:\n    self._cells[node_id] = self.cell_klass(node_id, capacity, random=self.random)",
+            "self._connect_cells()"]
+    if init != want:
+        raise T.Broken("Network.__init__ changed")
+    cc = [ast.unparse(x) for x in _stmts(T._find_func(k, "_connect_cells"))]
+    if cc != ["for cell in self.all_cells:\n    self._connect_single_cell(cell)"]:
+        raise T.Broken("Network._connect_cells changed")
+    return ("(* one (key, target) per graph neighbour, in the order G.neighbors yields them *)\n"
+            f"Definition gen_net_connect (neighbors : list Z) : list (Z * Z) :=\n"
+            f"  flat_map (fun {var} => [({kk}, {t})]) neighbors.")
+
+
 def _fb(t):
     return lambda: t
 
@@ -367,4 +501,8 @@ CONSTRUCTS = [
          "Definition gen_nbhd_rec_radius (radius : Z) (include_center : bool) : Z := radius.\n"
          "Definition gen_nbhd_rec_center (radius : Z) (include_center : bool) : bool := false.")),
     ("cell_nbhd_skeleton", CELL, c_nbhd_skeleton, _fb("Definition gen_cell_nbhd_skeleton_ok : bool := false.")),
+    ("vor_export_code", VOR, c_vor_export, _fb("Definition gen_vor_export (triangles : list (Z * Z * Z)) : list (Z * Z * Z) := [].")),
+    ("vor_connect_code", VOR, c_vor_connect,
+     _fb("Definition gen_vor_connect (exported triangles : list (Z * Z * Z)) : list (Z * ((Z * Z) * Z)) := [].")),
+    ("net_connect_code", NET, c_net_connect, _fb("Definition gen_net_connect (neighbors : list Z) : list (Z * Z) := [].")),
 ]
